@@ -121,3 +121,51 @@ Proof. intros. unfold batched_eval. symmetry. apply concat_map. Qed.
 Lemma batched_eval_length : forall (X T : Type) (f : X -> T) (chunks : list (list X)),
   length (batched_eval f chunks) = length (concat chunks).
 Proof. intros. rewrite batched_eval_rows. apply map_length. Qed.
+
+(* ---- alignment of samples and density rows in ImportanceFlowProposal.draw ---------------------------------------------- *)
+Lemma keep_by_map : forall (A B : Type) (f : A -> B) mask (l : list A), keep_by mask (map f l) = map f (keep_by mask l).
+Proof.
+  induction mask as [|[|] m IH]; intros [|x r]; simpl; try reflexivity; [f_equal; apply IH | apply IH].
+Qed.
+Lemma concat_map_map : forall (A B : Type) (f : A -> B) (ls : list (list A)), concat (map (map f) ls) = map f (concat ls).
+Proof. intros. symmetry. apply concat_map. Qed.
+Lemma combine_map_self : forall (A B : Type) (f : A -> B) (l : list A),
+  Forall (fun p => snd p = f (fst p)) (combine l (map f l)).
+Proof. induction l as [|x r IH]; simpl; constructor; auto. Qed.
+
+Lemma map_fst_combine_self : forall (A B : Type) (f : A -> B) (l : list A), map fst (combine l (map f l)) = l.
+Proof. induction l as [|x r IH]; simpl; [reflexivity|]. f_equal. exact IH. Qed.
+
+(* filtering a batch and its rows by the same mask, concatenating and trimming both arrays: every returned row is the row of
+   the sample it is returned with (rows = map f points in every batch, f = "the density row of this point") *)
+Lemma draw_aligned_rows : forall (A B : Type) (f : A -> B) (n : nat) (bs : list (draw_batch A B)),
+  Forall (fun b => snd b = map f (snd (fst b))) bs ->
+  Forall (fun p => snd p = f (fst p)) (draw_aligned n bs).
+Proof.
+  intros A B f n bs H. unfold draw_aligned.
+  assert (E : concat (map (fun b : draw_batch A B => keep_by (fst (fst b)) (snd b)) bs)
+              = map f (concat (map (fun b : draw_batch A B => keep_by (fst (fst b)) (snd (fst b))) bs))).
+  { rewrite <- concat_map_map. f_equal. rewrite map_map.
+    induction H as [|b r Hb Hr IH]; simpl; [reflexivity|]. rewrite Hb, keep_by_map, IH. reflexivity. }
+  unfold draw_batch in *. rewrite E, firstn_map. apply combine_map_self.
+Qed.
+Lemma draw_aligned_length : forall (A B : Type) (f : A -> B) (n : nat) (bs : list (draw_batch A B)),
+  Forall (fun b => snd b = map f (snd (fst b))) bs ->
+  map fst (draw_aligned n bs) = firstn n (concat (map (fun b => keep_by (fst (fst b)) (snd (fst b))) bs)).
+Proof.
+  intros A B f n bs H. unfold draw_aligned.
+  assert (E : concat (map (fun b : draw_batch A B => keep_by (fst (fst b)) (snd b)) bs)
+              = map f (concat (map (fun b : draw_batch A B => keep_by (fst (fst b)) (snd (fst b))) bs))).
+  { rewrite <- concat_map_map. f_equal. rewrite map_map.
+    induction H as [|b r Hb Hr IH]; simpl; [reflexivity|]. rewrite Hb, keep_by_map, IH. reflexivity. }
+  unfold draw_batch in *. rewrite E, firstn_map. apply map_fst_combine_self.
+Qed.
+(* rows appended unfiltered and trimmed: one rejected point shifts every later row *)
+Lemma draw_rows_unfiltered_refuted : exists (f : nat -> nat) (n : nat) (bs : list (draw_batch nat nat)),
+  Forall (fun b => snd b = map f (snd (fst b))) bs /\
+  ~ Forall (fun p => snd p = f (fst p)) (draw_rows_unfiltered n bs).
+Proof.
+  exists (fun x => 10 + x)%nat, 1%nat, [([false; true], [0; 1], [10; 11])]%nat. split.
+  - repeat constructor.
+  - vm_compute. intros H. inversion H as [|? ? H1 _]; subst. simpl in H1. discriminate.
+Qed.
